@@ -5,11 +5,12 @@
 (* The expected verdict is recomputed here from the parameters with MambaStatic's rules - the label       *)
 (* the generator attached is not trusted.  Allowed(..) is a set: where the documentation leaves the       *)
 (* verdict open, both answers are allowed.                                                                *)
-EXTENDS MambaStatic, Json, IOUtils
+EXTENDS MambaStatic, MambaScope, Json, IOUtils
 
 Rec == ndJsonDeserialize(IOEnv.TRACE)
 
 NullSrcType(T, s) == CASE s = "none" -> NoneT [] s = "nullable" -> NT(T, TRUE) [] OTHER -> NT(T, FALSE)
+AsSet(seq) == {seq[j] : j \in 1..Len(seq)}      \* JSON has no sets
 Rule(o) ==
     LET n == o.note IN
     CASE o.kind \in {"call", "method", "ctor"}       -> {Verdict(CallOK(n.sig, n.args))}
@@ -22,6 +23,11 @@ Rule(o) ==
       [] o.kind = "fin-loopvar"                      -> {"accept", "reject"}
       [] o.kind \in {"fin-var", "fin-undefined", "fin-param", "fin-member", "fin-shadow"}
                                                      -> {Verdict(WriteOK(n.defined, n.mutable, n.recv_mutable))}
+      [] o.kind \in {"raises", "raises-nested", "raises-after-handle", "raises-in-arm"}
+                                                     -> {Verdict(RaisesOK(n.raised, AsSet(n.declared), AsSet(n.handled)))}
+      [] o.kind = "raises-declare"                   -> {Verdict(DeclarableOK(n.declared_class))}
+      [] o.prop = "C09" /\ n.pattern = "shadow-new-type-old" -> {Verdict(InitOK("Int", "Str"))}   \* the new binding is a Str
+      [] o.prop = "C09"                              -> Verdicts(o.prog)          \* the analysis of MambaScope on the program itself
       [] OTHER                                       -> {o.expect}
 
 Judge(o) ==
